@@ -68,24 +68,36 @@ theorem lexLt_negtrans : ∀ (a b c : List Nat), lexLt a b = false → lexLt b c
 theorem phraseLt_multi {a b : Phrase} (ha : a.text.length ≠ 1) (hb : b.text.length ≠ 1) :
     phraseLt a b = if a.freq = b.freq then lexLt (utf8Enc b.text) (utf8Enc a.text) else decide (b.freq < a.freq) := by
   unfold phraseLt
-  rw [if_neg (by intro h; exact ha h.1), if_neg (by intro h; rcases h with h | h; exact ha h; exact hb h)]
+  rw [if_neg (by intro h; exact ha h.1), if_neg ha, if_neg hb]
 
 theorem phraseLt_single {a b : Phrase} (ha : a.text.length = 1) (hb : b.text.length = 1) : phraseLt a b = false := by
   unfold phraseLt
   rw [if_pos ⟨ha, hb⟩]
 
-/-- single-character leaves keep the insertion order -/
-theorem sortLeaf_single (ps : List Phrase) (h : ∀ p ∈ ps, p.text.length = 1) : sortLeaf ps = ps :=
-  sortBy_id _ _ (fun a ha b hb => phraseLt_single (h a ha) (h b hb))
+theorem phraseLt_single_multi {a b : Phrase} (ha : a.text.length = 1) (hb : b.text.length ≠ 1) : phraseLt a b = true := by
+  unfold phraseLt
+  rw [if_neg (by intro h; exact hb h.2), if_pos ha]
 
-/-- multi-character leaves are sorted by the comparator … -/
-theorem sortLeaf_multi_sorted (ps : List Phrase) (h : ∀ p ∈ ps, p.text.length ≠ 1) :
-    (sortLeaf ps).Pairwise (fun a b => phraseLt b a = false) := by
-  refine sortBy_sorted _ _ ?_ ?_
-  · intro a ha b hb c hc hba hcb
-    rw [phraseLt_multi (h b hb) (h a ha)] at hba
-    rw [phraseLt_multi (h c hc) (h b hb)] at hcb
-    rw [phraseLt_multi (h c hc) (h a ha)]
+theorem phraseLt_multi_single {a b : Phrase} (ha : a.text.length ≠ 1) (hb : b.text.length = 1) : phraseLt a b = false := by
+  unfold phraseLt
+  rw [if_neg (by intro h; exact ha h.1), if_neg ha, if_pos hb]
+
+def isSingle (p : Phrase) : Bool := p.text.length == 1
+
+/-- the comparator is a total preorder: "not after" is transitive … -/
+theorem phraseLt_negtrans (a b c : Phrase) (hba : phraseLt b a = false) (hcb : phraseLt c b = false) :
+    phraseLt c a = false := by
+  by_cases ha : a.text.length = 1 <;> by_cases hb : b.text.length = 1 <;> by_cases hc : c.text.length = 1
+  · exact phraseLt_single hc ha
+  · exact phraseLt_multi_single hc ha
+  · exact phraseLt_single hc ha
+  · exact phraseLt_multi_single hc ha
+  · rw [phraseLt_single_multi hb ha] at hba; cases hba
+  · rw [phraseLt_single_multi hb ha] at hba; cases hba
+  · rw [phraseLt_single_multi hc hb] at hcb; cases hcb
+  · rw [phraseLt_multi hb ha] at hba
+    rw [phraseLt_multi hc hb] at hcb
+    rw [phraseLt_multi hc ha]
     by_cases e1 : b.freq = a.freq
     · rw [if_pos e1] at hba
       by_cases e2 : c.freq = b.freq
@@ -105,9 +117,15 @@ theorem sortLeaf_multi_sorted (ps : List Phrase) (h : ∀ p ∈ ps, p.text.lengt
         by_cases e3 : c.freq = a.freq
         · omega
         · rw [if_neg e3]; simp; omega
-  · intro a ha b hb hab
-    rw [phraseLt_multi (h a ha) (h b hb)] at hab
-    rw [phraseLt_multi (h b hb) (h a ha)]
+
+/-- … and it is asymmetric -/
+theorem phraseLt_asymm (a b : Phrase) (hab : phraseLt a b = true) : phraseLt b a = false := by
+  by_cases ha : a.text.length = 1 <;> by_cases hb : b.text.length = 1
+  · exact phraseLt_single hb ha
+  · exact phraseLt_multi_single hb ha
+  · rw [phraseLt_multi_single ha hb] at hab; cases hab
+  · rw [phraseLt_multi ha hb] at hab
+    rw [phraseLt_multi hb ha]
     by_cases e1 : a.freq = b.freq
     · rw [if_pos e1] at hab
       rw [if_pos e1.symm]
@@ -116,17 +134,51 @@ theorem sortLeaf_multi_sorted (ps : List Phrase) (h : ∀ p ∈ ps, p.text.lengt
       rw [if_neg (fun e => e1 e.symm)]
       simp at hab ⊢; omega
 
-/-- … in particular by descending frequency -/
-theorem sortLeaf_multi_freq (ps : List Phrase) (h : ∀ p ∈ ps, p.text.length ≠ 1) :
-    (sortLeaf ps).Pairwise (fun a b => b.freq ≤ a.freq) := by
-  refine List.Pairwise.imp_of_mem ?_ (sortLeaf_multi_sorted ps h)
+/-- every leaf is sorted by the comparator -/
+theorem sortLeaf_sorted (ps : List Phrase) : (sortLeaf ps).Pairwise (fun a b => phraseLt b a = false) :=
+  sortBy_sorted _ _ (fun a _ b _ c _ => phraseLt_negtrans a b c) (fun a _ b _ => phraseLt_asymm a b)
+
+/-- single characters keep their insertion order (also among longer phrases) -/
+theorem sortLeaf_singles (ps : List Phrase) : (sortLeaf ps).filter isSingle = ps.filter isSingle :=
+  sortBy_filter_stable _ _ _ (fun a _ b _ ha hb =>
+    phraseLt_single (by simpa [isSingle] using ha) (by simpa [isSingle] using hb))
+
+/-- multi-character phrases are in descending frequency (also among single characters) -/
+theorem sortLeaf_multis (ps : List Phrase) :
+    ((sortLeaf ps).filter (fun p => !isSingle p)).Pairwise (fun a b => b.freq ≤ a.freq) := by
+  have h := (sortLeaf_sorted ps).filter (fun p => !isSingle p)
+  refine List.Pairwise.imp_of_mem ?_ h
   intro a b ha hb hlt
-  have ha' := h a (mem_sortBy.mp ha)
-  have hb' := h b (mem_sortBy.mp hb)
+  have ha' : a.text.length ≠ 1 := by simpa [isSingle] using (List.mem_filter.mp ha).2
+  have hb' : b.text.length ≠ 1 := by simpa [isSingle] using (List.mem_filter.mp hb).2
   rw [phraseLt_multi hb' ha'] at hlt
   by_cases e : b.freq = a.freq
   · omega
   · rw [if_neg e] at hlt
     simp at hlt; omega
+
+/-- single characters stand before all longer phrases -/
+theorem sortLeaf_singles_first (ps : List Phrase) :
+    (sortLeaf ps).Pairwise (fun a b => isSingle b = true → isSingle a = true) := by
+  refine List.Pairwise.imp ?_ (sortLeaf_sorted ps)
+  intro a b hlt hb
+  by_cases ha : a.text.length = 1
+  · simpa [isSingle] using ha
+  · rw [phraseLt_single_multi (by simpa [isSingle] using hb) ha] at hlt; cases hlt
+
+/-- single-character leaves keep the insertion order -/
+theorem sortLeaf_single (ps : List Phrase) (h : ∀ p ∈ ps, p.text.length = 1) : sortLeaf ps = ps :=
+  sortBy_id _ _ (fun a ha b hb => phraseLt_single (h a ha) (h b hb))
+
+/-- multi-character leaves: descending frequency -/
+theorem sortLeaf_multi_freq (ps : List Phrase) (h : ∀ p ∈ ps, p.text.length ≠ 1) :
+    (sortLeaf ps).Pairwise (fun a b => b.freq ≤ a.freq) := by
+  have hm := sortLeaf_multis ps
+  have : (sortLeaf ps).filter (fun p => !isSingle p) = sortLeaf ps := by
+    rw [List.filter_eq_self]
+    intro p hp
+    have := h p (mem_sortBy.mp hp)
+    simpa [isSingle] using this
+  rwa [this] at hm
 
 end Chewing.TrieCodec
